@@ -66,6 +66,21 @@ def extra_cases(tier):
                 for seq in ([2], [0], [2, 1]):          # set_n_ids(3) / (1) / (3) then (2)
                     prog = [['fix', k]] + [['set_n_ids', a] for a in seq]
                     out.append(dict(kind='pop', pop=pop, n_ids=2, prog=prog, enumerated=True))
+    # hierarchical likelihoods over a population model that is still configured for ONE individual when it is handed
+    # over (heterogeneous part, plain and inside a reduced model with a parameter fixed by name), 2-3 individuals
+    for n_ids in (2, 3):
+        for red in (False, True):
+            for default_names in (True, False):
+                base = dict(kind='comp', parts=[dict(kind='hetero', n_dim=1), dict(kind='gauss', n_dim=1, centered=True)])
+                pop = dict(kind='red', base=base, fixed=[n_ids + 1], values=[0.4]) if red else base
+                ll = dict(n_out=1, n_par=1, ems=[dict(kind='gauss', fixed=None)], times=[[0.5, 1.0]], obs=[[1.0, 1.4]],
+                          tmode='single', tied=False)
+                n_top = n_ids + (1 if red else 2)
+                out.append(dict(kind='hier', pop=pop, n_ids=n_ids, lls=[ll] * n_ids, ids=None, cov=None,
+                                vec=[0.5 + 0.1 * i for i in range(n_ids)] + [1.0 + 0.2 * i for i in range(n_ids)] +
+                                    ([0.5] if red else [0.5, 0.4]),
+                                prior=[dict(kind='lognormal', a=0.0, b=1.0)] * n_top, late=True,
+                                default_names=default_names, enumerated=True))
     # every history of length <= 4 (quick: <= 3 plus all of length 4 that start with 'S1') over
     # {sensitivities on, fix, release all, display name, indirect route, outputs} on one small generated model
     for L in range(1, 5):
